@@ -2,3 +2,4 @@ pub mod ans;
 pub mod chain;
 pub mod range;
 pub mod refmodel;
+pub mod models;
